@@ -10,7 +10,7 @@ from sa.db import AnalysisError, ClassInfo, FunctionInfo, dotted, mangle, norm_s
 from sa.flow import Interp, TestAtom, call_of
 
 CLAIM = {
-    "text": "Decides the existence and placement of the bounding constructs: (guard) in every deserializer generator that accumulates received data (`x += yield`, `file.write((yield))`, `list.append(<yielded>)`) no path leads from one accumulation to the next without passing a test that compares the accumulator's size (or an offset derived from it) with the limit or with the bound that ends the accumulation, and every such accumulating loop contains a LimitOverrunError exit - so an unterminated frame cannot grow the buffer by more than one read beyond the limit; (early) the `separator not found` limit error is raised only after the search of the same round failed, and the `found but too long` test dominates the slice that returns the frame; (fixed) the buffered consumer's buffer is assigned only from protocol.create_buffer() or None and never grown, and every create_deserializer_buffer computes its size from the limit / size attribute, sizehint and literals only, with the limit as an upper bound where the serializer has one; (thread) the limit given to the constructor is validated > 0, stored once, and reaches every guard unchanged. For the separator framers, whose scanner takes its limit from len(buffer), the allocated size is exactly the configured limit and does not depend on the size hint. A size compared with the limit is the accumulator itself or a local computed from it since the last accumulation (no stale snapshot); the limit error of an inherited incremental parser can leave every concrete subclass's entry point as LimitOverrunError (it is not swallowed by the subclass's expected-error set); the JSON escape predicate rule of C01 is shared (a mis-framed string makes small frames hit the limit).",
+    "text": "Decides the existence and placement of the bounding constructs: (guard) in every deserializer generator that accumulates received data (`x += yield`, `file.write((yield))`, `list.append(<yielded>)`) no path leads from one accumulation to the next without passing a test that compares the accumulator's size (or an offset derived from it) with the limit or with the bound that ends the accumulation, and every such accumulating loop contains a LimitOverrunError exit - so an unterminated frame cannot grow the buffer by more than one read beyond the limit; (early) the `separator not found` limit error is raised only after the search of the same round failed, and the `found but too long` test dominates the slice that returns the frame; (fixed) the buffered consumer's buffer is assigned only from protocol.create_buffer() or None and never grown, and every create_deserializer_buffer computes its size from the limit / size attribute, sizehint and literals only, with the limit as an upper bound where the serializer has one; (thread) the limit given to the constructor is validated > 0, stored once, and reaches every guard unchanged. For the separator framers, whose scanner takes its limit from len(buffer), the allocated size is exactly the configured limit and does not depend on the size hint. A size compared with the limit is the accumulator itself or a local computed from it since the last accumulation (no stale snapshot); the limit error of an inherited incremental parser can leave every concrete subclass's entry point as LimitOverrunError (it is not swallowed by the subclass's expected-error set); the JSON escape predicate rule of C01 is shared (a mis-framed string makes small frames hit the limit). Round 6: a size test delegated to a helper of the module (`if size > limit: raise LimitOverrunError`), also through a local alias, counts as the size test between two accumulations.",
     "note": "Trusted: bytearray/bytes semantics. Documented scope exception: the compressor wrapper has no limit parameter (outside the property's stated scope). Not decided: the exact numeric acceptance band (limit + one read + separator), chunking-independence of acceptance near the limit (DESIGN section 5 O2).",
     "technique": "typestate (accumulate -> bounding test -> accumulate) by abstract interpretation, dominance-style ordering facts, who-writes and allocation-size leaf queries on the ast program database",
 }
